@@ -39,6 +39,8 @@
 #include <xalanc/XPath/XObjectFactory.hpp>
 #include <xalanc/XSLT/ProblemListener.hpp>
 #include <xalanc/XSLT/TraceListener.hpp>
+#include <xalanc/XMLSupport/FormatterToText.hpp>
+#include <xalanc/PlatformSupport/DOMStringPrintWriter.hpp>
 #include <xercesc/framework/MemoryManager.hpp>
 #include <xalanc/XSLT/XSLTInputSource.hpp>
 #include <xalanc/XSLT/XSLTResultTarget.hpp>
@@ -298,6 +300,24 @@ static std::string transformCompiled(XalanTransformer& t, const XalanCompiledSty
     return result(t, rc, out.str());
 }
 
+// result delivered to a FormatterListener supplied by the caller (the execution context then creates no formatter,
+// print writer or output stream of its own)
+static std::string transformCompiledFL(XalanTransformer& t, const XalanCompiledStylesheet* cs, const XalanParsedSource* ps)
+{
+    XalanDOMString buf;
+    int rc;
+    {
+        DOMStringPrintWriter pw(buf);
+        FormatterToText fl(pw, false, true);
+        XSLTResultTarget target(fl);
+        if (g_cur) { g_cur->pl.n = 0; g_cur->tl.n = 0; }
+        rc = t.transform(*ps, cs, target);
+    }
+    CharVectorType v;
+    buf.transcode(v);
+    return result(t, rc, std::string(v.begin(), v.end()).c_str());
+}
+
 static std::vector<std::string> split(const std::string& s, char c)
 {
     std::vector<std::string> r;
@@ -374,9 +394,9 @@ int main()
                 R.t->clearStylesheetParams();
                 reply = "ok";
             }
-            else if (op == "install" && w.size() == 2)
+            else if (op == "install" && w.size() == 3)
             {
-                R.t->installExternalFunction(NS, XalanDOMString(w[1].c_str()), FunctionConst(w[1]));
+                R.t->installExternalFunction(NS, XalanDOMString(w[1].c_str()), FunctionConst(w[1] + ":" + w[2]));
                 reply = "ok";
             }
             else if (op == "uninstall" && w.size() == 2)
@@ -394,9 +414,9 @@ int main()
                 setObjectParam(*R.t, w[1], "D:" + w[2]);
                 reply = "ok";
             }
-            else if (op == "ginstall" && w.size() == 2)
+            else if (op == "ginstall" && w.size() == 3)
             {
-                XalanTransformer::installExternalFunctionGlobal(NS, XalanDOMString(w[1].c_str()), FunctionConst("G" + w[1]));
+                XalanTransformer::installExternalFunctionGlobal(NS, XalanDOMString(w[1].c_str()), FunctionConst(w[1] + ":" + w[2]));
                 reply = "ok";
             }
             else if (op == "guninstall" && w.size() == 2)
@@ -467,6 +487,17 @@ int main()
                     reply = transformCompiled(*R.t, R.sheets[a], R.sources[b]);
                 }
             }
+            else if (op == "transformfl" && w.size() == 4)
+            {
+                int a = std::atoi(w[1].c_str()), b = std::atoi(w[2].c_str());
+                if (R.sheets.count(a) == 0 || R.sources.count(b) == 0)
+                    reply = "rc -100";
+                else
+                {
+                    g_cur = R.x;
+                    reply = transformCompiledFL(*R.t, R.sheets[a], R.sources[b]);
+                }
+            }
             else if (op == "transformsrc" && w.size() == 4)
             {
                 g_cur = R.x;
@@ -496,15 +527,19 @@ int main()
                 }
                 std::vector<std::string> fs = split(w[5], ';');
                 for (size_t i = 0; i < fs.size(); ++i)
-                    t.installExternalFunction(NS, XalanDOMString(fs[i].c_str()), FunctionConst(fs[i]));
-                if (w[1] == "c")
+                {
+                    // name:implementation
+                    const std::string nm = fs[i].substr(0, fs[i].find(':'));
+                    t.installExternalFunction(NS, XalanDOMString(nm.c_str()), FunctionConst(fs[i]));
+                }
+                if (w[1] == "c" || w[1] == "l")
                 {
                     const XalanCompiledStylesheet* cs = 0;
                     const XalanParsedSource* psrc = 0;
                     int rc1 = compileInto(t, w[2], cs);
                     int rc2 = parseInto(t, w[3], psrc);
                     if (rc1 != 0 || rc2 != 0) reply = "R setup-failed " + std::to_string(rc1) + " " + std::to_string(rc2);
-                    else reply = transformCompiled(t, cs, psrc);
+                    else reply = w[1] == "l" ? transformCompiledFL(t, cs, psrc) : transformCompiled(t, cs, psrc);
                 }
                 else
                     reply = transformSrc(t, w[2], w[3]);
